@@ -9,7 +9,9 @@ import sys
 from concurrent.futures import ThreadPoolExecutor
 
 OUT = "/verif/seeded"
-SRC = "/tmp/seed_out"
+SRC = os.environ.get("SEED_SRC", "/tmp/seed_out")
+WT_PREFIX = os.environ.get("SEED_WT", "/tmp/wt_")
+TAG = os.environ.get("SEED_TAG", "")
 
 
 def sh(cmd, cwd, env=None, timeout=900):
@@ -21,9 +23,10 @@ def sh(cmd, cwd, env=None, timeout=900):
 
 
 def confirm_prop(pid):
-    wt = f"/tmp/wt_{pid}"
+    wt = f"{WT_PREFIX}{pid}"
     res = []
     for n in ("1", "2", "3"):
+        meta_base = "the pinned commit" if not TAG else "/repo HEAD at the time of seeding (round 2, after the repairs)"
         d = f"{SRC}/{pid}/{n}"
         if not os.path.exists(f"{d}/patch.diff"):
             continue
@@ -43,12 +46,12 @@ def confirm_prop(pid):
         meta.update({
             "confirmed": ok, "confirmed_tests_passed_with_change": passed,
             "confirmed_demo_exit_with_change": rc_with, "confirmed_demo_exit_without_change": rc_without,
-            "what_i_ran": f"in scratch worktree {wt} of the pinned commit: git apply patch.diff; pytest -q (348 passed required); "
+            "what_i_ran": f"in scratch worktree {wt} of {meta_base}: git apply patch.diff; pytest -q (348 passed required); "
                           f"PYTHONPATH={wt} python demo.py (exit 1 required); git checkout -- .; python demo.py (exit 0 required)",
             "breaks": pid,
         })
         if ok:
-            tgt = f"{OUT}/{pid}-{n}"
+            tgt = f"{OUT}/{pid}-{TAG}{n}"
             os.makedirs(tgt, exist_ok=True)
             shutil.copy(f"{d}/patch.diff", tgt)
             shutil.copy(f"{d}/demo.py", tgt)
@@ -59,7 +62,7 @@ def confirm_prop(pid):
 
 if __name__ == "__main__":
     pids = sys.argv[1:] or ["C%02d" % i for i in range(1, 19)]
-    with ThreadPoolExecutor(6) as ex:
+    with ThreadPoolExecutor(int(os.environ.get('SEED_PAR', '6'))) as ex:
         for rs in ex.map(confirm_prop, pids):
             for r in rs:
                 print(*r, flush=True)
